@@ -9,6 +9,11 @@ CLAIMED = {
     note="Trusted: Coq kernel + vm_compute, the model of sampler.go (hand-written; checked against the implementation on ~7k histories per run incl. preset counters near 2^32 and int64 clock extremes), the Go harness and overlay accessors. RandomSampler (PRNG) is not modelled. Real goroutine interleavings are sampled (totals only); the all-interleavings claim is the theorem over the atomic-add LTS.",
     technique="Coq proof (induction over histories / schedules) + model-vs-implementation correspondence by vm_compute",
     design="5 C13"),
+ "C04": dict(
+    text="Theorems in Coq: should() admits iff writer set, level >= logger level and >= global level and the sampler admits (all levels, by lia); a complete logging call writes exactly once at exactly the event's level iff admitted; WithLevel(Disabled) never writes; Panic()/Fatal() fire exactly once filtered or not, WithLevel never; Level text round-trips for all 256 levels (finite, vm_compute lifted with forallb_forall); every exported *Event method of the current source is nil-guarded (obligation over the table go2coq regenerates from /repo on every run). The gate functions' source shapes are re-translated on every run and compared with what the model transcribes; the model is also evaluated against the real Logger on full 256-level rows.",
+    note="Trusted: Coq kernel + vm_compute; go2coq (guard-shape recogniser over go/ast: which statement shapes count as a nil guard) and the statement-level comparison of should/newEvent/WithLevel/write/Panic/Fatal with the transcribed shapes (a harmless rewrite of those six functions is reported as broken, no-failing-input-found); Go harness: exhaustive 256x256x256 gate table and reflection-enumerated nil-event calls on the real code; Fatal observed in a re-executed child. strings.EqualFold is modelled for ASCII only.",
+    technique="Coq proof + go2coq-regenerated method/shape tables as proof obligations + model-vs-implementation correspondence",
+    design="5 C04"),
 }
 
 NOT_YET = {}
